@@ -9,9 +9,8 @@ From PW.proofs Require Import P_viewing.
 Import ListNotations.
 Local Open Scope R_scope.
 
-(* domain of world_to_view: camera position and target differ, up is not parallel to the viewing direction *)
-Definition camera_ok (position target up : vec3 R) : Prop :=
-  target <> position /\ vcross ROps (vsub ROps target position) up <> V3 0 0 0.
+(* camera_ok position target up (P_viewing.v): the domain of world_to_view — camera position and target differ,
+   and up is not parallel to the viewing direction:  target <> position /\ (target - position) x up <> 0 *)
 
 (* ---- world_to_view ---------------------------------------------------------------------------------- *)
 (* on its domain the function returns a NaN-free matrix, the one the theorems below speak about *)
